@@ -254,15 +254,16 @@ Record st := mkSt {
   s_now      : N;                 (* clock, minutes *)
   (* the learner placement driver (a second coordinator process on the same register) *)
   s_lnodes   : list (N * bool);   (* its learnerNodes: node, whether the node has this driver's learner role *)
-  s_lstart   : option bool        (* the register's "need_start_learner" key: unset / false / true *)
+  s_lstart   : option bool;       (* the register's "need_start_learner" key: unset / false / true *)
+  s_upgrading : bool              (* isUpgrading *)
 }.
 
 Definition upd_reg (s : st) (r : reg) : st :=
   mkSt (s_replica s) r (s_ans s) (s_nodes s) (s_nepoch s) (s_stable s) (s_unstable s) (s_auto s)
-       (s_waiting s) (s_rmnodes s) (s_now s) (s_lnodes s) (s_lstart s).
+       (s_waiting s) (s_rmnodes s) (s_now s) (s_lnodes s) (s_lstart s) (s_upgrading s).
 Definition upd_flags (s : st) (r : reg) (unstable : bool) (waiting : option N) : st :=
   mkSt (s_replica s) r (s_ans s) (s_nodes s) (s_nepoch s) (s_stable s) unstable (s_auto s)
-       waiting (s_rmnodes s) (s_now s) (s_lnodes s) (s_lstart s).
+       waiting (s_rmnodes s) (s_now s) (s_lnodes s) (s_lstart s) (s_upgrading s).
 
 (* getCurrentNodesWithEpoch(nil) / getCurrentNodes(nil): data nodes that are not being removed from the cluster *)
 Definition avail_nodes (s : st) : list N := filter (fun n => negb (ahas n (s_rmnodes s))) (s_nodes s).
@@ -314,7 +315,8 @@ Definition do_check (s : st) (full : bool) (place_all place_avail : placement) :
       match s_waiting s with
       | None => check_finish s full false r1 (s_unstable s) (Some now) check_ok true w1
       | Some ft =>
-          if ft <? now - wait_migrate then
+          if s_upgrading s then check_finish s full false r1 (s_unstable s) (Some ft) check_ok true w1
+          else if ft <? now - wait_migrate then
             let '(c, r2, info2, w2) :=
               handle_migrate replica env now r1 (s_nepoch s) info1 (avail_nodes s) (s_nepoch s) place_avail in
             match c with
@@ -338,7 +340,7 @@ Definition nodes_event (s : st) (l : list N) (ll : list (N * bool)) : st * bool 
   let joined := existsb (fun n => negb (mem n old)) l in
   let check := lost || joined in
   (mkSt (s_replica s) (s_reg s) (s_ans s) l (if check then ne1 + 1 else ne1) stable
-        (if check then true else s_unstable s) (s_auto s) (s_waiting s) (s_rmnodes s) (s_now s) ll (s_lstart s), check).
+        (if check then true else s_unstable s) (s_auto s) (s_waiting s) (s_rmnodes s) (s_now s) ll (s_lstart s) (s_upgrading s), check).
 
 (* ---------- addNodeToNamespaceAndWaitReady, as far as it gets before its monitor channel is closed ----------
    (the harness closes the channel at the first register update attempt, or beforehand for processRemovingNodes;
@@ -365,7 +367,7 @@ Definition add_and_wait (env : answers) (r : reg) (place : placement) : awres * 
 Definition mark_node (s : st) (n : N) : st :=
   mkSt (s_replica s) (s_reg s) (s_ans s) (s_nodes s) (s_nepoch s) (s_stable s) (s_unstable s) (s_auto s)
        (s_waiting s) (if ahas n (s_rmnodes s) then s_rmnodes s else (n, RMarked) :: s_rmnodes s) (s_now s)
-       (s_lnodes s) (s_lstart s).
+       (s_lnodes s) (s_lstart s) (s_upgrading s).
 
 (* ---------- processRemovingNodes (called with a closed monitor channel) ---------- *)
 Definition rm_set (k : N) (v : rmstate) (m : list (N * rmstate)) : list (N * rmstate) :=
@@ -440,13 +442,13 @@ Definition process_removing (s : st) (place : placement) : st * bool * list atte
     match check_pending (s_ans s) info0 rm with
     | Some rm' =>
         (mkSt (s_replica s) (s_reg s) (s_ans s) (s_nodes s) (s_nepoch s) (s_stable s) (s_unstable s) (s_auto s)
-              (s_waiting s) rm' (s_now s) (s_lnodes s) (s_lstart s), false, [])
+              (s_waiting s) rm' (s_now s) (s_lnodes s) (s_lstart s) (s_upgrading s), false, [])
     | None =>
         let a := fold_left (proc_node (s_replica s) (s_ans s) (s_now s) (s_nodes s) place info0)
                            (map fst rm) (mkPacc rm (s_reg s) false false [] false) in
         (* a panic unwinds before pdCoord.removingNodes is assigned *)
         (mkSt (s_replica s) (p_reg a) (s_ans s) (s_nodes s) (s_nepoch s) (s_stable s) (s_unstable s) (s_auto s)
-              (s_waiting s) (if p_chg a && negb (p_panic a) then p_rm a else rm) (s_now s) (s_lnodes s) (s_lstart s),
+              (s_waiting s) (if p_chg a && negb (p_panic a) then p_rm a else rm) (s_now s) (s_lnodes s) (s_lstart s) (s_upgrading s),
          p_panic a, p_atts a)
     end
   end.
@@ -505,7 +507,7 @@ Definition rebalance (s : st) (place : placement) : st * bres * list attempt :=
   let env := s_ans s in
   let r0 := s_reg s in
   let info0 := r_info r0 in
-  if s_unstable s then (s, BRet false false, [])
+  if s_unstable s || s_upgrading s then (s, BRet false false, [])
   else if 0 <? len (s_rmnodes s) then (s, BRet false false, [])
   else if 0 <? len (removings info0) then (s, BRet false true, [])
   else if negb (all_ready env info0) then (s, BRet false true, [])
@@ -646,7 +648,9 @@ Inductive event :=
   | ELAdd (n : N)
   | ELLeader (n : N)
   | ELRemove (n : N) (check : bool)
-  | ELRemoveAll.
+  | ELRemoveAll
+  | EReplica (r : N)        (* pd_api.go ChangeNamespaceMetaParam(newReplicator = r) *)
+  | EUpgrade (b : bool).    (* pd_api.go SetClusterUpgradeState *)
 
 Definition set_answers (env : answers) (l : list (N * option (option (list (N * N)) * bool))) : answers :=
   fold_left (fun e p => match snd p with
@@ -661,10 +665,10 @@ Definition step (s : st) (e : event) : st * ret * list attempt :=
   | ENodes l ll => let '(s', b) := nodes_event s l ll in (s', RBool b, [])
   | EAnswer l =>
       (mkSt (s_replica s) (s_reg s) (set_answers (s_ans s) l) (s_nodes s) (s_nepoch s) (s_stable s)
-            (s_unstable s) (s_auto s) (s_waiting s) (s_rmnodes s) (s_now s) (s_lnodes s) (s_lstart s), RNone, [])
+            (s_unstable s) (s_auto s) (s_waiting s) (s_rmnodes s) (s_now s) (s_lnodes s) (s_lstart s) (s_upgrading s), RNone, [])
   | ETick d =>
       (mkSt (s_replica s) (s_reg s) (s_ans s) (s_nodes s) (s_nepoch s) (s_stable s)
-            (s_unstable s) (s_auto s) (s_waiting s) (s_rmnodes s) (s_now s + d) (s_lnodes s) (s_lstart s), RNone, [])
+            (s_unstable s) (s_auto s) (s_waiting s) (s_rmnodes s) (s_now s + d) (s_lnodes s) (s_lstart s) (s_upgrading s), RNone, [])
   | ECheck full pa pv => let '(s', p, w) := do_check s full pa pv in (s', if p then RPanic else RNone, w)
   | EMigrate delta place =>
       let '(c, r, _, w) := handle_migrate (s_replica s) (s_ans s) (s_now s) (s_reg s) (s_nepoch s)
@@ -680,7 +684,7 @@ Definition step (s : st) (e : event) : st * ret * list attempt :=
   | EFail k => (upd_reg s (mkReg (r_info (s_reg s)) (r_counter (s_reg s)) k), RNone, [])
   | EAuto b =>
       (mkSt (s_replica s) (s_reg s) (s_ans s) (s_nodes s) (s_nepoch s) (s_stable s)
-            (s_unstable s) b (s_waiting s) (s_rmnodes s) (s_now s) (s_lnodes s) (s_lstart s), RNone, [])
+            (s_unstable s) b (s_waiting s) (s_rmnodes s) (s_now s) (s_lnodes s) (s_lstart s) (s_upgrading s), RNone, [])
   | EBalance place =>
       let '(s', b, w) := rebalance s place in
       (s', match b with BRet m a => RPair m a | BPanic => RPanic end, w)
@@ -689,18 +693,28 @@ Definition step (s : st) (e : event) : st * ret * list attempt :=
   | ELCheck => let '(r, w) := learner_check s in (upd_reg s r, RNone, w)
   | ELStart b =>
       (mkSt (s_replica s) (s_reg s) (s_ans s) (s_nodes s) (s_nepoch s) (s_stable s)
-            (s_unstable s) (s_auto s) (s_waiting s) (s_rmnodes s) (s_now s) (s_lnodes s) (Some b), RNone, [])
+            (s_unstable s) (s_auto s) (s_waiting s) (s_rmnodes s) (s_now s) (s_lnodes s) (Some b) (s_upgrading s), RNone, [])
   | ELAdd n => let '(c, r, _, w) := learner_add (s_reg s) (r_info (s_reg s)) n in (upd_reg s r, RL c, w)
   | ELLeader n => let '(c, r, _, w) := learner_leader (s_reg s) (r_info (s_reg s)) n in (upd_reg s r, RL c, w)
   | ELRemove n chk =>
       let '(c, r, _, w) := learner_remove (s_lnodes s) (s_reg s) (r_info (s_reg s)) n chk in (upd_reg s r, RL c, w)
   | ELRemoveAll => let '(c, r, _, w) := learner_remove_all (s_reg s) (r_info (s_reg s)) in (upd_reg s r, RL c, w)
+  | EReplica r =>
+      if 5 <? r then (s, RCode CRegErr, [])
+      else let nr := if 0 <? r then r else s_replica s in
+           if len (avail_nodes s) <? nr then (s, RCode CNoNode, [])
+           else (* the meta write takes the register's next modification index *)
+                (mkSt nr (mkReg (r_info (s_reg s)) (r_counter (s_reg s) + 1) (r_fail (s_reg s))) (s_ans s) (s_nodes s) (s_nepoch s) (s_stable s) (s_unstable s) (s_auto s)
+                      (s_waiting s) (s_rmnodes s) (s_now s) (s_lnodes s) (s_lstart s) (s_upgrading s), RCode COk, [])
+  | EUpgrade b =>
+      (mkSt (s_replica s) (s_reg s) (s_ans s) (s_nodes s) (s_nepoch s) (s_stable s) (s_unstable s) (s_auto s)
+            (s_waiting s) (s_rmnodes s) (s_now s) (s_lnodes s) (s_lstart s) b, RNone, [])
   end.
 
-(* a run: the attempts of every step, in order *)
-Definition run_step (acc : st * list attempt) (e : event) : st * list attempt :=
-  let '(s', _, w) := step (fst acc) e in (s', snd acc ++ w).
-Definition run (s : st) (evs : list event) : st * list attempt := fold_left run_step evs (s, []).
+(* a run: the attempts of every step, in order, each tagged with the replication factor in effect *)
+Definition run_step (acc : st * list (N * attempt)) (e : event) : st * list (N * attempt) :=
+  let '(s', _, w) := step (fst acc) e in (s', snd acc ++ map (fun a => (s_replica (fst acc), a)) w).
+Definition run (s : st) (evs : list event) : st * list (N * attempt) := fold_left run_step evs (s, []).
 
 Definition init_state (replica : N) (info : rinfo) (auto : bool) : st :=
-  mkSt replica (mkReg (set_epoch info 1) 1 0) [] [] 0 0 false auto None [] 1000 [] None.
+  mkSt replica (mkReg (set_epoch info 1) 1 0) [] [] 0 0 false auto None [] 1000 [] None false.
